@@ -29,6 +29,11 @@ nx = lambda a, b, l: l.startswith('exc:')
 
 def check(run):
     R = run
+    R.rule('C08.shared', 'objects created once per class / per function definition (class-level attributes, parameter '
+           'defaults) are only read: no buffer, validator, poll object, header list or option dict is shared between '
+           'connections', 1)
+    from .common import shared_state
+    shared_state(R, 'C08.shared')
     R.rule('C08.writers', 'stores to State.closing / State.closed: writer set and placement', 8)
     R.rule('C08.onlyclose', 'CLOSE opcode sent only by _send_close, called only by close(); every path of close() that '
                             'attempts the send enters the closing state', 4)
@@ -50,6 +55,7 @@ def check(run):
     from . import C04, C05, C09
     with R.as_rule('C08.codes'):
         C04.closecodes(R)
+        C05.strict(R)        # ... and a valid reason is judged on its own bytes (fresh validator, strict decode)
     with R.as_rule('C08.route'):
         C05.route(R)
     with R.as_rule('C08.echoswallow'):
@@ -69,6 +75,10 @@ def check(run):
     R.rule('C08.timeout', 'a client-initiated close that gets no reply ends through the close timeout (time recorded '
                           'when the Close is sent, tested on every loop iteration)', 3)
     C15.close(R, RID='C08.timeout', rearm=False)    # a postponed timeout is C15's / C07's business, not this property's
+    from . import C13
+    R.rule('C08.sockclosed', 'the handshake ends with the descriptor closed: _close_socket closes the socket on every path '
+                             'on which one is present (a failing shutdown() included)', 2)
+    C13.closes(R, RID='C08.sockclosed')
 
 
 def _flag_stores(R, flag):
